@@ -1471,3 +1471,122 @@ def translate_group(src):
             out.append(f"/-- translated from the `{name}` reducer of `Table.{meth}`" + (" without its final `** 0.5`" if r.sqrt else "") + " -/\n"
                        f"def {name}T{tag} (vals : List (Option Int)) : {_LTYPE[want]} :=\n  {e}")
     return out
+
+
+# ---------------------------------------------------------------------------------------------
+# alias_tracker.py: register / unregister / check_writable over a functional registry
+# ---------------------------------------------------------------------------------------------
+def translate_alias_tracker(src):
+    """The registry `dict[int, list[weakref]]` is translated as a function `Nat → List Nat` (a missing key and an empty list are
+    the same thing to every reader: `if not refs`), a weak reference as the number of its object, `r()` as `live r` (`None` when
+    the object is dead), `r() is vec` as `r == vec` (object numbers are never reused)."""
+    tree = ast.parse(src)
+    cls = [n for n in tree.body if isinstance(n, ast.ClassDef) and n.name == "_AliasTracker"]
+    if not cls:
+        raise TranslateError("alias_tracker: class _AliasTracker")
+    meth = {f.name: f for f in cls[0].body if isinstance(f, ast.FunctionDef)}
+    cl = [s for s in meth["_cleanup_dead_refs"].body if not (isinstance(s, ast.Expr) and isinstance(s.value, ast.Constant))]
+    if not (len(cl) == 1 and ast.unparse(cl[0]) == "return [r for r in refs if r() is not None]"):
+        raise TranslateError("_cleanup_dead_refs")
+
+    SET = "(fun k => if k = tuple_id then {v} else registry k)"
+
+    def block(stmts, env, ret, ind):
+        """env: local name -> 'list' | 'alias' (the list stored under registry[tuple_id]); ret(registry_expr, value) -> lean"""
+        pad = " " * ind
+        stmts = [s for s in stmts if not (isinstance(s, ast.Expr) and isinstance(s.value, ast.Constant))]     # docstrings only
+        if not stmts:
+            return pad + ret(None)
+        s, rest = stmts[0], stmts[1:]
+        u = ast.unparse(s)
+        if isinstance(s, ast.Return):
+            v = None if s.value is None else ast.unparse(s.value)
+            if v not in (None, "True"):
+                raise TranslateError("alias_tracker: return " + v)
+            return pad + ret(True if v == "True" else None)
+        if isinstance(s, ast.Raise):
+            if not ast.unparse(s.exc).startswith("AliasError("):
+                raise TranslateError("alias_tracker: raise")
+            return pad + ret(False)
+        if isinstance(s, ast.Assign) and len(s.targets) == 1:
+            t, v = ast.unparse(s.targets[0]), ast.unparse(s.value)
+            if isinstance(s.targets[0], ast.Name):
+                n = s.targets[0].id
+                ln = n + "_" if n in ("alive",) else n
+                if v in ("self._registry.setdefault(tuple_id, [])", "self._registry.get(tuple_id)"):
+                    return pad + f"let {ln} := registry tuple_id\n" + block(rest, dict(env, **{n: "list"}), ret, ind)
+                if v.startswith("self._cleanup_dead_refs(") and v[len("self._cleanup_dead_refs("):-1] in env:
+                    src_n = v[len("self._cleanup_dead_refs("):-1]
+                    sl = src_n + "_" if src_n == "alive" else src_n
+                    return pad + f"let {ln} := {sl}.filter live\n" + block(rest, dict(env, **{n: "list"}), ret, ind)
+                if v == "[]" and rest and isinstance(rest[0], ast.For):
+                    # alive = []; for r in refs: obj = r(); if obj is None: continue; if obj is vec: continue; alive.append(r)
+                    loop = rest[0]
+                    want = ["obj = r()", "if obj is None:\n    continue", "if obj is vec:\n    continue", f"{n}.append(r)"]
+                    if ast.unparse(loop.target) != "r" or ast.unparse(loop.iter) not in env or [ast.unparse(x) for x in loop.body] != want:
+                        raise TranslateError("alias_tracker: filter loop")
+                    it = ast.unparse(loop.iter)
+                    return (pad + f"let {ln} := {it}.filter (fun r => live r && r != vec)\n"
+                            + block(rest[1:], dict(env, **{n: "list"}), ret, ind))
+                if v == "[r() for r in alive if r() is not None]" and "alive" in env:
+                    return pad + f"let {ln} := alive_.filter live\n" + block(rest, dict(env, **{n: "list"}), ret, ind)
+            if t == "self._registry[tuple_id]" and v in env:
+                vl = v + "_" if v == "alive" else v
+                e2 = {k: ("list" if x == "alias" else x) for k, x in env.items()}
+                e2[v] = "alias"
+                return pad + "let registry := " + SET.format(v=vl) + "\n" + block(rest, e2, ret, ind)
+            raise TranslateError("alias_tracker: assignment " + u[:50])
+        if isinstance(s, ast.Delete) and u == "del self._registry[tuple_id]":
+            return pad + "let registry := " + SET.format(v="[]") + "\n" + block(rest, env, ret, ind)
+        if isinstance(s, ast.Expr) and isinstance(s.value, ast.Call) and u.endswith(".append(weakref.ref(vec))"):
+            n = u[:-len(".append(weakref.ref(vec))")]
+            if env.get(n) != "alias":
+                raise TranslateError("alias_tracker: append to a list that is not the stored one")
+            nl = n + "_" if n == "alive" else n
+            return (pad + f"let {nl} := {nl} ++ [vec]\n" + pad + "let registry := " + SET.format(v=nl) + "\n"
+                    + block(rest, env, ret, ind))
+        if isinstance(s, ast.For) and ast.unparse(s.target) == "r" and ast.unparse(s.iter) in env \
+                and [ast.unparse(x) for x in s.body] == ["if r() is vec:\n    return"]:
+            it = ast.unparse(s.iter)
+            return (pad + f"if {it}.contains vec then\n" + pad + "  " + ret(None) + "\n" + pad + "else\n" + block(rest, env, ret, ind + 2))
+        if isinstance(s, ast.If):
+            t = ast.unparse(s.test)
+            if t.startswith("not ") and t[4:] in env:
+                c = f"{t[4:] + '_' if t[4:] == 'alive' else t[4:]}.isEmpty"
+            elif t in env:
+                c = f"(!{t + '_' if t == 'alive' else t}.isEmpty)"
+            elif t.startswith("len(") and t.endswith(") <= 1") and t[4:-6] in env:
+                c = f"decide ({t[4:-6]}.length ≤ 1)"
+            else:
+                raise TranslateError("alias_tracker: condition " + t[:40])
+            return (pad + f"if {c} then\n" + block(s.body + rest, env, ret, ind + 2) + "\n" + pad + "else\n"
+                    + block(s.orelse + rest, env, ret, ind + 2))
+        raise TranslateError("alias_tracker: statement " + u[:50])
+
+    out = []
+    for name, lean, rtype, ret in (
+            ("register", "registerT", "Nat → List Nat", lambda v: "registry"),
+            ("unregister", "unregisterT", "Nat → List Nat", lambda v: "registry"),
+            ("check_writable", "checkWritableT", "(Nat → List Nat) × Bool", lambda v: f"(registry, {'false' if v is False else 'true'})")):
+        f = meth[name]
+        if [a.arg for a in f.args.args] != ["self", "vec", "tuple_id"]:
+            raise TranslateError(f"alias_tracker: signature of {name}")
+        out.append(f"/-- translated from `_AliasTracker.{name}`" + (" (`false` = `raise AliasError`)" if name == "check_writable" else "") + " -/\n"
+                   f"def {lean} (live : Nat → Bool) (registry : Nat → List Nat) (vec tuple_id : Nat) : {rtype} :=\n"
+                   + block(f.body, {}, ret, 2))
+    return out
+
+
+def generate_alias(src_dir):
+    """fourth generated file: the three methods of alias_tracker._AliasTracker"""
+    parts, errors = [], []
+    try:
+        parts += translate_alias_tracker(open(os.path.join(src_dir, "alias_tracker.py")).read())
+    except Exception as ex:
+        errors.append(("alias_tracker", f"{type(ex).__name__}: {ex}"))
+        parts.append(f"-- alias_tracker: not translated ({type(ex).__name__})")
+    text = ("/- GENERATED by harness/py2lean.py from /repo's working tree — do not edit.\n"
+            "   register / unregister / check_writable of alias_tracker._AliasTracker, translated; equivalence theorems in Serif/Tie/AliasTracker.lean. -/\n"
+            "import Serif.Prelude\n\nset_option linter.unusedVariables false\n\nnamespace Serif.Gen.TA\nopen Serif\n\n"
+            + "\n\n".join(parts) + "\n\nend Serif.Gen.TA\n")
+    return text, errors
